@@ -62,6 +62,7 @@ class PathCtx:
         self.cur_line = None
         self.ghost: dict = {}
         self.trace: list = []
+        self.quantified: list = []      # assumed universal hypotheses as genuine z3 quantifiers
 
     # -- fresh symbols -------------------------------------------------------
     def fresh_name(self, base: str) -> str:
@@ -113,8 +114,9 @@ class PathCtx:
             return f
         return self._check(z3.Not(f)) == z3.unsat
 
-    def branch(self, cond) -> bool:
-        """Decide a symbolic condition: follow the replay prefix, or fork."""
+    def branch(self, cond, free=False) -> bool:
+        """Decide a symbolic condition: follow the replay prefix, or fork.
+        free=True: cond is a fresh unconstrained Boolean (both sides feasible by construction)."""
         if isinstance(cond, bool):
             return cond
         cond = z3.simplify(cond)
@@ -128,8 +130,8 @@ class PathCtx:
         if i < len(self.prefix):
             d = self.prefix[i]
         else:
-            t_ok = self.feasible(cond)
-            f_ok = self.feasible(z3.Not(cond))
+            t_ok = True if free else self.feasible(cond)
+            f_ok = True if free else self.feasible(z3.Not(cond))
             if t_ok and f_ok:
                 d = True
                 self.alternatives.append(self.taken + [False])
